@@ -1,5 +1,6 @@
 INIT Init
 NEXT Next
 CONSTANT Mode = "graphs3"
+CONSTANT EmitDepth = 2
 INVARIANT Emit
 CHECK_DEADLOCK FALSE
